@@ -57,6 +57,11 @@ type xVal struct {
 	Tuple []xVal
 	// NonNil: known not to be nil (closure, interface made from a value, result of errors.New …)
 	NonNil bool
+	// Stale: set by a client on a value (typically a field load) that was
+	// obtained at a moment when it was not yet stable; everything computed from
+	// it (len, arithmetic, comparisons) carries the mark and is not given a
+	// concrete value
+	Stale bool
 	// HasLen/Len: a slice value of known length
 	HasLen bool
 	Len    int64
@@ -88,6 +93,9 @@ func (v xVal) String() string {
 		if v.K == xAddr {
 			s = "&" + s
 		}
+		if v.Stale {
+			s += "/stale"
+		}
 		if v.HasLen {
 			s += fmt.Sprintf("/len%d", v.Len)
 		}
@@ -96,6 +104,9 @@ func (v xVal) String() string {
 		}
 		return fmt.Sprintf("%s#%d", s, fid)
 	case xField:
+		if v.Stale {
+			return "(" + v.Base.String() + ")." + v.Fld.Field + "/stale"
+		}
 		return "(" + v.Base.String() + ")." + v.Fld.Field
 	case xElem:
 		return "(" + v.Base.String() + ")[" + v.Idx.String() + "]"
@@ -165,6 +176,10 @@ type xState struct {
 	defers map[int][]xDefer
 	conts  []xCont
 	Client uint64
+	// decided: outcome of undecidable comparisons between path-invariant
+	// operands (parameters, globals, constants) already branched on, so that a
+	// second test of the same condition (e.g. through a flag variable) agrees
+	decided map[string]bool
 	// Trail: positions of the branch decisions taken (for witnesses), bounded
 	trail []string
 	x     *xplorer
@@ -191,6 +206,12 @@ func (s *xState) clone() *xState {
 		n.defers[k] = append([]xDefer(nil), v...)
 	}
 	n.conts = append([]xCont(nil), s.conts...)
+	if s.decided != nil {
+		n.decided = make(map[string]bool, len(s.decided))
+		for k, v := range s.decided {
+			n.decided[k] = v
+		}
+	}
 	n.trail = append([]string(nil), s.trail...)
 	return &n
 }
@@ -247,6 +268,7 @@ type xplorer struct {
 	Limit    int
 	Overflow bool
 	maxDepth int
+	fieldFn  map[FieldID][]ssa.Value
 }
 
 // c12xOnOverflow is called when an exploration exceeds its budget (the
@@ -500,12 +522,15 @@ func (s *xState) eval(f *xFrame, v ssa.Value, depth int) xVal {
 			}
 			fallthrough
 		case token.LSS, token.LEQ, token.GTR, token.GEQ:
-			return xVal{K: xCmp, Op: t.Op, X: &a, Y: &b, V: v, F: f}
+			return xVal{K: xCmp, Op: t.Op, X: &a, Y: &b, V: v, F: f, Stale: a.Stale || b.Stale}
 		}
-		return xVal{K: xAtom, V: v, F: f}
+		return xVal{K: xAtom, V: v, F: f, Stale: a.Stale || b.Stale}
 	case *ssa.Call:
 		if builtinName(t) == "len" && len(t.Call.Args) == 1 {
 			a := s.eval(f, t.Call.Args[0], depth+1)
+			if a.Stale {
+				return xVal{K: xAtom, V: v, F: f, Stale: true}
+			}
 			if a.K == xField {
 				if n, ok := s.x.cl.Lens[a.Fld]; ok {
 					return xIntVal(int64(n))
@@ -619,7 +644,10 @@ func (s *xState) load(f *xFrame, u *ssa.UnOp, depth int) xVal {
 				return r
 			}
 		}
-		return xVal{K: xElem, Base: &base, Idx: &idx, V: u, F: f}
+		if idx.K == xInt && base.HasLen && int64(len(base.Elems)) == base.Len && idx.I >= 0 && idx.I < base.Len {
+			return base.Elems[idx.I] // element of a small slice whose content is known (e.g. a literal)
+		}
+		return xVal{K: xElem, Base: &base, Idx: &idx, V: u, F: f, Stale: base.Stale}
 	case *ssa.Global:
 		return xVal{K: xAtom, V: u, F: nil}
 	}
@@ -694,6 +722,9 @@ func (x *xplorer) key(s *xState) string {
 			ds = append(ds, fmt.Sprintf("%p", d.d))
 		}
 		ks = append(ks, fmt.Sprintf("D%d=%s", k, strings.Join(ds, ",")))
+	}
+	for k, v := range s.decided {
+		ks = append(ks, fmt.Sprintf("Q%s=%v", k, v))
 	}
 	sort.Strings(ks)
 	b.WriteString(strings.Join(ks, ";"))
@@ -821,11 +852,55 @@ func (x *xplorer) calleeOf(s *xState, f *xFrame, cc *ssa.CallCommon) (*ssa.Funct
 		return nil, nil
 	}
 	cv := s.eval(f, cc.Value, 0)
+	return x.funcOf(cv)
+}
+
+// funcOf: the function an abstract value denotes: a closure, a function, or a
+// load of a func-typed struct field into which the package only ever stores
+// one function (then free variables are resolved statically).
+func (x *xplorer) funcOf(cv xVal) (*ssa.Function, *xVal) {
 	if cv.K == xAtom {
 		switch v := cv.V.(type) {
 		case *ssa.MakeClosure:
 			if fn, ok := v.Fn.(*ssa.Function); ok {
 				return fn, &cv
+			}
+		case *ssa.Function:
+			return v, nil
+		}
+	}
+	if cv.K == xField {
+		if x.fieldFn == nil {
+			x.fieldFn = map[FieldID][]ssa.Value{}
+		}
+		targets, ok := x.fieldFn[cv.Fld]
+		if !ok {
+			for _, fn := range x.p.Funcs {
+				if fn.Pkg != x.pkg && !(fn.Parent() != nil) {
+					continue
+				}
+				allInstrs(fn, func(in ssa.Instruction) {
+					if st, ok := in.(*ssa.Store); ok {
+						if fa, ok := st.Addr.(*ssa.FieldAddr); ok && fieldIDOfAddr(fa) == cv.Fld {
+							targets = append(targets, c12Roots(st.Val, nil)...)
+						}
+					}
+				})
+			}
+			x.fieldFn[cv.Fld] = targets
+		}
+		var only ssa.Value
+		for _, t := range targets {
+			if only != nil && only != t {
+				return nil, nil
+			}
+			only = t
+		}
+		switch v := only.(type) {
+		case *ssa.MakeClosure:
+			if fn, ok := v.Fn.(*ssa.Function); ok {
+				c := xVal{K: xAtom, V: v, F: nil}
+				return fn, &c
 			}
 		case *ssa.Function:
 			return v, nil
@@ -918,7 +993,25 @@ func (x *xplorer) step(s *xState) (*xState, []*xState) {
 		if cond.K == xBool {
 			return take(s, cond.B), nil
 		}
+		// a comparison of path-invariant operands decided earlier on this path
+		stableKey := ""
+		if bc := s.eval(s.fr, base, 0); bc.K == xCmp && xStable(*bc.X) && xStable(*bc.Y) {
+			stableKey = bc.String()
+			if prev, ok := s.decided[stableKey]; ok {
+				return take(s, prev != neg), nil
+			}
+		}
 		other := s.clone()
+		if stableKey != "" {
+			if s.decided == nil {
+				s.decided = map[string]bool{}
+			}
+			if other.decided == nil {
+				other.decided = map[string]bool{}
+			}
+			s.decided[stableKey] = true != neg
+			other.decided[stableKey] = false != neg
+		}
 		a := take(s, true)
 		b := take(other, false)
 		if a == nil {
@@ -1049,6 +1142,20 @@ func (x *xplorer) step(s *xState) (*xState, []*xState) {
 	return s, nil
 }
 
+// xStable: a value that cannot change along a path of one call.
+func xStable(v xVal) bool {
+	switch v.K {
+	case xNil, xInt, xBool:
+		return true
+	case xAtom:
+		switch v.V.(type) {
+		case *ssa.Parameter, *ssa.Global, *ssa.Const, *ssa.Function:
+			return true
+		}
+	}
+	return false
+}
+
 func (x *xplorer) stripNot(s *xState, v ssa.Value) (ssa.Value, bool) {
 	neg := false
 	for {
@@ -1085,18 +1192,7 @@ func (x *xplorer) runDefers(s *xState) *xState {
 				callee = v
 			case *ssa.Builtin:
 			default:
-				if d.callee.K == xAtom {
-					switch w := d.callee.V.(type) {
-					case *ssa.MakeClosure:
-						if fn, ok := w.Fn.(*ssa.Function); ok {
-							callee = fn
-							c := d.callee
-							closure = &c
-						}
-					case *ssa.Function:
-						callee = w
-					}
-				}
+				callee, closure = x.funcOf(d.callee)
 			}
 		}
 		if callee != nil && x.inlinable(s, callee) {
